@@ -52,6 +52,12 @@ def run(ctx, rec):
         drive(ctx, rec, corpus.conflicting_externals(ctx, rng, 2 if q else 6))
         drive(ctx, rec, corpus.equal_valued_params(ctx, rng, 4 if q else 20))
         drive(ctx, rec, corpus.twin_externals(ctx, rng, 1 if q else 3))
+        drive(ctx, rec, corpus.edited_externals(ctx, rng, 2 if q else 6))
+    if WF:
+        hostile = list(corpus.hostile_designs(ctx, rng, 12 if q else 120))
+        if ctx.nshards > 1:
+            hostile = hostile[ctx.shard:: ctx.nshards]
+        drive(ctx, rec, hostile)
     drive(ctx, rec, corpus.collision_designs(ctx, rng, 260 if q else 2000))
     gens = list(corpus.generated_designs(ctx, rng, 600 if q else 6400, depth=2 if q else 3))
     if ctx.nshards > 1:
